@@ -9,6 +9,7 @@ import (
 	"os"
 
 	"golang.org/x/tools/go/ssa"
+	"golang.org/x/tools/go/ssa/ssautil"
 
 	"gosym/smt"
 )
@@ -108,6 +109,27 @@ func (st *State) callFunction(fn *ssa.Function, args []Value, site ssa.Value) Va
 		if fn.Signature.Recv() != nil {
 			if r, ok := st.verifrtCall(fn, args); ok {
 				return r
+			}
+		} else {
+			switch fn.Name() {
+			case "And", "Or":
+				acc := st.c.BAnd(tm(args[0]), tm(args[1]))
+				if fn.Name() == "Or" {
+					acc = st.c.BOr(tm(args[0]), tm(args[1]))
+				}
+				more := args[2].(Agg)
+				n := st.concreteInt(tm(more[1]), "variadic length")
+				for i := 0; i < n; i++ {
+					b := st.c.BV2B(st.loadBytes(st.addrAdd(tm(more[0]), int64(i)), 1)[0])
+					if fn.Name() == "Or" {
+						acc = st.c.BOr(acc, b)
+					} else {
+						acc = st.c.BAnd(acc, b)
+					}
+				}
+				return acc
+			case "Implies":
+				return st.c.BOr(st.c.BNot(tm(args[0])), tm(args[1]))
 			}
 		}
 	}
@@ -308,6 +330,9 @@ func (st *State) execFrame(fr *Frame) Value {
 				st.end("UNWIND", "step cap %d exceeded", st.w.Opt.StepCap)
 			}
 			st.curInstr = in
+			if p := in.Pos(); p.IsValid() {
+				fr.lastPos = p
+			}
 			switch in := in.(type) {
 			case *ssa.Phi:
 				// find predecessor index
@@ -318,6 +343,13 @@ func (st *State) execFrame(fr *Frame) Value {
 					}
 				}
 			case *ssa.If:
+				if sw := fr.info.switches[block]; sw != nil && !st.lenient {
+					if nb, pb, ok := st.execSwitch(sw); ok {
+						next = nb
+						block = pb // becomes fr.prev below
+						break instrs
+					}
+				}
 				if st.branch(tm(st.get(in.Cond)), "if") {
 					next = block.Succs[0]
 				} else {
@@ -1058,4 +1090,48 @@ func (st *State) lenientStore(in *ssa.Store) {
 		st.poisoned[addr.V] = "initialiser not executable"
 	}
 	st.storeT(addr, in.Val.Type(), val)
+}
+
+// execSwitch decides a Go switch over constants as one decision per distinct
+// target block (a disjunction of the case constants) instead of one per
+// constant. Returns the target and the predecessor block to report to phis.
+func (st *State) execSwitch(sw *ssautil.Switch) (next, pred *ssa.BasicBlock, ok bool) {
+	xv, isTerm := st.get(sw.X).(*smt.Term)
+	if !isTerm || xv.W == 0 {
+		return nil, nil, false
+	}
+	type group struct {
+		body *ssa.BasicBlock
+		pred *ssa.BasicBlock
+		cond *smt.Term
+	}
+	var groups []*group
+	byBody := map[*ssa.BasicBlock]*group{}
+	for _, cc := range sw.ConstCases {
+		if len(cc.Body.Instrs) > 0 {
+			if _, isPhi := cc.Body.Instrs[0].(*ssa.Phi); isPhi {
+				return nil, nil, false
+			}
+		}
+		kv, isC := st.constValue(cc.Value).(*smt.Term)
+		if !isC || kv.W != xv.W {
+			return nil, nil, false
+		}
+		eq := st.c.Eq(xv, kv)
+		g := byBody[cc.Body]
+		if g == nil {
+			g = &group{body: cc.Body, pred: cc.Block, cond: eq}
+			byBody[cc.Body] = g
+			groups = append(groups, g)
+		} else {
+			g.cond = st.c.BOr(g.cond, eq)
+		}
+	}
+	for _, g := range groups {
+		if st.branch(g.cond, "switch") {
+			return g.body, g.pred, true
+		}
+	}
+	last := sw.ConstCases[len(sw.ConstCases)-1].Block
+	return sw.Default, last, true
 }
